@@ -158,31 +158,44 @@ Definition lua_tostring (a : lval) : res lval :=
   | LStatus _ => Err EUnsupported
   end.
 
-(* arithmetic and order: numbers only (Lua would coerce numeral strings; the scripts
-   always go through tonumber, anything else is reported as a type error) *)
+(* arithmetic and the math.* functions: numbers, and strings that are (canonical decimal) numerals -
+   Lua coerces them ("10" + 1 = 11, math.max("3", 2) = 3); anything else is a run-time type error.
+   Order comparisons do NOT coerce (Lua: "attempt to compare number with string"); two strings would
+   be compared lexicographically by Lua - outside the modelled fragment, reported as a type error. *)
+Definition as_num (a : lval) : option Q :=
+  match a with
+  | LNum x => Some x
+  | LStr (BInt z) => Some (inject_Z z)
+  | _ => None
+  end.
+Definition arith2 (f : Q -> Q -> res lval) (a b : lval) : M lval :=
+  match as_num a, as_num b with
+  | Some x, Some y => lift (f x y)
+  | _, _ => fail EType
+  end.
 Definition num2 (f : Q -> Q -> res lval) (a b : lval) : M lval :=
   match a, b with
   | LNum x, LNum y => lift (f x y)
   | _, _ => fail EType
   end.
-Definition lua_add := num2 (fun x y => Ok (LNum (x + y)%Q)).
-Definition lua_sub := num2 (fun x y => Ok (LNum (x - y)%Q)).
-Definition lua_mul := num2 (fun x y => Ok (LNum (x * y)%Q)).
-Definition lua_div := num2 (fun x y =>
+Definition lua_add := arith2 (fun x y => Ok (LNum (x + y)%Q)).
+Definition lua_sub := arith2 (fun x y => Ok (LNum (x - y)%Q)).
+Definition lua_mul := arith2 (fun x y => Ok (LNum (x * y)%Q)).
+Definition lua_div := arith2 (fun x y =>
   if Qeq_bool y 0 then Err EUnsupported (* inf / nan *) else Ok (LNum (x / y)%Q)).
 Definition lua_neg (a : lval) : M lval :=
-  match a with LNum x => ret (LNum (- x)%Q) | _ => fail EType end.
+  match as_num a with Some x => ret (LNum (- x)%Q) | None => fail EType end.
 Definition qlt (x y : Q) : bool := negb (Qle_bool y x).
 Definition lua_lt := num2 (fun x y => Ok (LBool (qlt x y))).
 Definition lua_le := num2 (fun x y => Ok (LBool (Qle_bool x y))).
 Definition lua_gt := num2 (fun x y => Ok (LBool (qlt y x))).
 Definition lua_ge := num2 (fun x y => Ok (LBool (Qle_bool y x))).
-Definition lua_max := num2 (fun x y => Ok (LNum (if qlt x y then y else x))).
-Definition lua_min := num2 (fun x y => Ok (LNum (if qlt y x then y else x))).
+Definition lua_max := arith2 (fun x y => Ok (LNum (if qlt x y then y else x))).
+Definition lua_min := arith2 (fun x y => Ok (LNum (if qlt y x then y else x))).
 Definition lua_floor (a : lval) : M lval :=
-  match a with LNum x => ret (znum (Qfloor x)) | _ => fail EType end.
+  match as_num a with Some x => ret (znum (Qfloor x)) | None => fail EType end.
 Definition lua_ceil (a : lval) : M lval :=
-  match a with LNum x => ret (znum (Qceiling x)) | _ => fail EType end.
+  match as_num a with Some x => ret (znum (Qceiling x)) | None => fail EType end.
 Definition lua_concat (a b : lval) : M lval :=
   match a, b with
   | LStr (BStr x), LStr (BStr y) => ret (LStr (BStr (x ++ y)))
